@@ -107,6 +107,38 @@ func VP_C15_mint() {
 	}
 }
 
+//vp:property C15
+//vp:set loopmax 100000 100000
+//vp:bounds a user token minted by GenerateUserToken in either key mode, for a user name of 2 symbolic bytes followed by 0, 300 or 700 filler bytes (names of every practical length: the token grows with the name), presented to UserInfo within ten seconds
+//vp:assume the serialised token carries exactly the claims handed to the builder under the algorithms and keys handed to the encrypter/signer, and is longer than its subject (go-jose contract)
+//vp:reach accepted
+func VP_C15_mint_then_verify() {
+	vpResetJose()
+	vpSetKeys()
+	if vpBool("encrypt-only") {
+		UserSigningKey = nil
+	}
+	pad := []int{0, 300, 700}[vpIntRange("name-padding", 0, 2)]
+	b := make([]byte, pad)
+	for i := range b {
+		b[i] = 'u'
+	}
+	user := vpStringN("user", 2) + string(b)
+	tok, err := GenerateUserToken(vpCtxWith(nil, nil), user)
+	vpAssume(err == nil && tok != "" && vpMintClaims != nil && vpMintClaims.Expiry != nil)
+	minted := vpLastNow
+	vpTokClaimsMade = true
+	vpTokIssuer, vpTokSubject = vpMintClaims.Issuer, vpMintClaims.Subject
+	vpTokExp, vpTokNbf, vpTokIat = vpMintClaims.Expiry, vpMintClaims.NotBefore, vpMintClaims.IssuedAt
+	vpMintedToken = true
+	defer func() { vpMintedToken = false }()
+	claims, err := UserInfo(vpCtxWith(nil, nil), tok)
+	vpAssume(vpLastNow <= minted+10)
+	vpReach("accepted")
+	vpAssert(err == nil, "a-freshly-minted-user-token-is-accepted")
+	vpAssert(claims.Subject == user, "a-token-minted-for-a-user-yields-that-user")
+}
+
 //vp:property C12
 //vp:set s 2 3
 //vp:bounds query token class as in C02 (JWS or not, header algs, MAC key among gateway keys/foreign), issuer configured as any 3-byte string, token issuer "rdpgw"/any 5 bytes/empty, exp/nbf/iat arbitrary, now arbitrary
